@@ -5,19 +5,21 @@ T_PLY = ["engine H harness /verif/go/harness (c04.go, c08.go, util_ply.go: gener
          "Go toolchain/runtime/stdlib (strconv, encoding/binary, bufio.Scanner, strings.Fields)"]
 
 CFG = dict(
-    modules=["PolyVerif.Props.C04", "PolyVerif.Props.C04Compose"],
+    modules=["PolyVerif.Props.C04", "PolyVerif.Props.C04Compose", "PolyVerif.Props.C04Header"],
     theorems=["ply_wire_roundtrip_record", "ply_body_length_binary", "ply_header_describes_body_binary",
               "ply_header_describes_body_record_size", "ply_header_describes_body_face_size",
               "ply_record_roundtrip_scalar", "ply_vector_reader_offsets", "ply_encodings_disagree_uchar_scalar",
               "ply_encodings_disagree_uchar_scalar_concrete", "ply_quant_is_stored_precision",
-              "ply_readback_arrays_binary", "ply_roundtrip_binary_partial", "ply_roundtrip_binary_checked"],
+              "ply_readback_arrays_binary", "ply_roundtrip_binary_partial", "ply_roundtrip_binary_checked",
+              "ply_header_text_roundtrip", "ply_header_cut_bytes", "writeHeader_ok", "ply_written_header_parses",
+              "ply_roundtrip_binary_bytes", "ply_roundtrip_binary_bytes_checked"],
     # proved, but subsumed / definitional: not counted as property theorems (ignored by the check)
     helper_theorems=["ply_put_get_32", "ply_put_get_64", "ply_wire_roundtrip_field", "ply_header_shape",
                      "ply_header_schema", "ply_ascii_scalar_reads_raw"],
     streams=[dict(name="c04", n=dict(quick=150, thorough=2500))],
     trusted=T_PLY,
     residue=["header describes body: PROVED for the binary encodings (ply_body_length_binary, ply_header_describes_body_binary: what writeBody emits = what writeHeader declares, for every WF mesh and configuration); for ASCII (number of non-empty body lines = nv + nf, tokens per line) and for the header text round trip parseHeader(render h) = h it is NOT proved — carried by the oracle c04.holds.header_describes (HeaderDescribes now also checks ASCII line and token counts) and by c04.header",
-             "COMPOSED: ply_roundtrip_binary_partial proves readBody(writeHeader, writeBody) satisfies RoundTrips for LE/BE, every configuration, every WF point cloud / triangle mesh without per-corner UVs, at the PARSED-header interface and under explicit claim-stage witnesses ClaimOK (or the decidable certificate claimCheck); NOT proved: the header text round trip parseHeader∘render, ClaimOK from header-level guards (characterisation of buildAll on arbitrary headers), the unweld/TexCoord assembly for triangle meshes with per-corner UVs (stages 1+2 incl. the UV list ARE proved: ply_readback_arrays_binary), ASCII; the vector claim scan has its offset theorem (ply_vector_reader_offsets) but its IgnorableW fallback, buildAll, readBody, parseHeader, unweld are not the subject of any theorem",
+             "COMPOSED: ply_roundtrip_binary_partial proves readBody(writeHeader, writeBody) satisfies RoundTrips for LE/BE, every configuration, every WF point cloud / triangle mesh without per-corner UVs, first at the parsed-header interface, then FROM FILE BYTES (ply_roundtrip_binary_bytes: readMesh(writeMesh) satisfies RoundTrips) since the header text layer is proved (ply_header_text_roundtrip: parseHeader(render h ++ body) = (h, body) for HeaderOK headers; ply_header_cut_bytes: every strict prefix of a printed header is an error), under explicit claim-stage witnesses ClaimOK (or the decidable certificate claimCheck); NOT proved: ClaimOK from header-level guards (characterisation of buildAll on arbitrary headers), the unweld/TexCoord assembly for triangle meshes with per-corner UVs (stages 1+2 incl. the UV list ARE proved: ply_readback_arrays_binary), ASCII; the vector claim scan has its offset theorem (ply_vector_reader_offsets) but its IgnorableW fallback, buildAll, readBody, parseHeader, unweld are not the subject of any theorem",
              "all theorems hold for an ARBITRARY `Coding α` (no laws: even f32 := const 0) and are about quantBin = decode∘encode of that coding; precision content only via CodingLaws (ply_quant_is_stored_precision)",
              "ply_roundtrip_full / ply_roundtrip_partial_stmt (whole file: writeMesh then readMesh satisfies RoundTrips) is a def … : Prop, NOT a theorem; it is evaluated on the implementation's write→read output by the c04.holds.roundtrip oracle on every generated mesh × configuration × encoding",
              "ply_encodings_agree_full is a def … : Prop, NOT a theorem (false for 8-bit scalar properties: ply_encodings_disagree_uchar_scalar, known finding); evaluated by c04.holds.encodings_agree",
